@@ -73,8 +73,12 @@ class Filter(base.Filter):
                 # a style element.
                 # The start tag may not be omitted either if the first thing
                 # inside the body element is a meta, link or template element.
+                # Nor if it is any other element that a parser would still put
+                # into the head element at that point.
                 return next["name"] not in ('script', 'style', 'meta', 'link',
-                                            'template')
+                                            'template', 'noscript', 'title',
+                                            'base', 'basefont', 'bgsound',
+                                            'noframes')
             else:
                 return True
         elif tagname == 'colgroup':
